@@ -191,3 +191,22 @@ Theorem index_text_ok b items :
 Proof. intros Hin. cbn [index_file fl_prefix app]. apply items_c01_ok. rewrite Forall_forall. intros cs Hcs. specialize (Hin cs Hcs).
   cbn [index_file fl_required] in Hin. apply in_map_iff in Hin as [f [<- Hf]]. apply star_item_text_ok.
   destruct b; cbn [In] in Hf; repeat (destruct Hf as [<-|Hf]; [reflexivity|]); destruct Hf. Qed.
+
+(* ---------------------------------------------------------------- the hole predicate alone is not enough *)
+(* C01_skeleton_full_statement takes hole_ok of every hole as its premise. A type hole is judged on its own text; a
+   type_mappings target that ends in a line comment is a good hole on its own (the lexer drops the comment) and swallows
+   the rest of the wrapper line in place. So the statement with hole_ok premises is false; the theorems above use the
+   budget predicates (identifier leaves) instead, which exclude such a mapping target. *)
+Definition g_comment : c_cfg := {| g_zod := false; g_param_case := L "camelCase"; g_field_case := L "snake_case"; g_mappings := [(L "Foo", L "A //")] |}.
+Definition c_comment : c_cmd := {| cc_name := L "f"; cc_serde := []; cc_params := []; cc_ret := Some (T0 "Foo") |}.
+Lemma skeleton_hole_premise_refuted :
+  ~ (forall g ss cmds evs f items,
+      (forall cs, In cs items -> In cs (fl_required (gen_file g ss cmds evs f)) \/ In cs (fl_optional (gen_file g ss cmds evs f))) ->
+      (forall h, In h (holes (fl_prefix (gen_file g ss cmds evs f) ++ List.concat items)) -> hole_ok (fst h) (snd h) = true) ->
+      c01_ok (text (fl_prefix (gen_file g ss cmds evs f) ++ List.concat items)) = true).
+Proof. intros H. specialize (H g_comment [] [c_comment] [] FCommands [wrapper_chunks g_comment c_comment]).
+  assert (c01_ok (text (fl_prefix (gen_file g_comment [] [c_comment] [] FCommands) ++ concat [wrapper_chunks g_comment c_comment])) = true) as E.
+  { apply H.
+    - intros cs [<-|[]]. left. left. reflexivity.
+    - intros h Hin. vm_compute in Hin. destruct Hin as [<-|[<-|[<-|[]]]]; vm_compute; reflexivity. }
+  vm_compute in E. discriminate. Qed.
